@@ -101,11 +101,15 @@ class DefaultDeploymentManager(DeploymentManager):
             else:
                 deployment_name = deployment_config.wraps.deployment
                 service = deployment_config.wraps.service
+            # If the DeploymentManager is creating the environment, wait for it to finish
+            if deployment_name in self.config_map:
+                await self.events_map[deployment_name].wait()
             # If it has already been processed by the DeploymentManager
             if deployment_name in self.config_map:
-                # If the DeploymentManager is creating the environment, wait for it to finish
                 if deployment_name not in self.deployments_map:
-                    await self.events_map[deployment_name].wait()
+                    raise WorkflowExecutionException(
+                        f"FAILED deployment of {deployment_name}"
+                    )
                 await self._inner_deploy(
                     connector_type=type(self.deployments_map[deployment_name]),
                     deployment_config=self.config_map[deployment_name],
